@@ -81,7 +81,7 @@ func (e expr) refText() string {
 }
 
 type cond struct {
-	op   string // cmp and or not isnull btw in truth | exists insub anysub allsub (sub-query number `sub`)
+	op   string // cmp and or not isnull btw in truth like | exists insub anysub allsub (sub-query number `sub`)
 	sub    int
 	subSQL string
 	cop  string
@@ -208,6 +208,8 @@ func sqlCond(c *cond, ll, rl []col) string {
 		return "(" + ex(0) + " " + not + "IN (" + strings.Join(ls, ", ") + "))"
 	case "truth":
 		return "(" + ex(0) + ")"
+	case "like":
+		return "(" + ex(0) + " " + not + "LIKE " + ex(1) + ")"
 	case "exists":
 		return "(EXISTS (" + c.subSQL + "))"
 	case "insub":
@@ -362,6 +364,10 @@ func (e *enc) cond(c *cond) []string {
 	case "truth":
 		out = append(out, "truth")
 		out = append(out, e.expr(c.e[0])...)
+	case "like":
+		out = append(out, "like", b01(c.neg))
+		out = append(out, e.expr(c.e[0])...)
+		out = append(out, e.expr(c.e[1])...)
 	case "exists":
 		out = append(out, "ex", strconv.Itoa(c.sub))
 	case "insub":
@@ -567,6 +573,13 @@ func newTables(g *hc.Gen, pr *hc.Proc, o *hc.Out, old []*table) []*table {
 	epoch++
 	keys := pool(g, 3+g.Intn(5), false)
 	pay := pool(g, 4+g.Intn(6), true)
+	// texts for LIKE: words of a small vocabulary between runes of several bytes (like.go)
+	curVocab = newLikeVocab(g)
+	for i := range pay {
+		if g.Intn(4) == 0 {
+			pay[i] = value.NewString(curVocab.text(g))
+		}
+	}
 	var out []*table
 	for i := 0; i < 4; i++ {
 		class := i
@@ -692,13 +705,20 @@ func (x *qgen) cond(depth int, ll, rl []col) *cond {
 		return &cond{op: "isnull", neg: g.Intn(2) == 0, e: []expr{x.pickCol(ll, rl)}}
 	case r < 80:
 		return &cond{op: "btw", neg: g.Intn(3) == 0, e: []expr{x.pickCol(ll, rl), x.operand(ll, rl), x.operand(ll, rl)}}
-	case r < 95:
+	case r < 90:
 		n := 1 + g.Intn(4)
 		c := &cond{op: "in", neg: g.Intn(3) == 0, e: []expr{x.pickCol(ll, rl)}}
 		for i := 0; i < n; i++ {
 			c.lits = append(c.lits, x.anyLit())
 		}
 		return c
+	case r < 96:
+		// [NOT] LIKE: the pattern cut out of a text of the tables (like.go), now and then another column
+		pat := expr{lit: likePatternFrom(g, x.lits)}
+		if g.Intn(8) == 0 {
+			pat = x.pickCol(ll, rl)
+		}
+		return &cond{op: "like", neg: g.Intn(3) == 0, e: []expr{x.pickCol(ll, rl), pat}}
 	}
 	return &cond{op: "truth", e: []expr{x.operand(ll, rl)}}
 }
@@ -1398,6 +1418,7 @@ func run(seed int64, n int, dir string, _ []string) {
 	outerOnTernaryCases(g, pr, o, n)
 	fromListCases(g, pr, o, n)
 	subqueryCases(g, pr, o, n)
+	likeCases(g, pr, o, n)
 	setOperatorCases(g, pr, o, n)
 	lateralModelCases(g, pr, o, n)
 	starExpansionCases(g, pr, o, n)
